@@ -5,7 +5,7 @@ locations r0..r2 (vlib/gen/cachehist.py), replayed by a plain interpreter loop a
 against the reference model vlib/ref/cachehist.CacheModel.
 
   {"op":"submit","task":A|B|C|W|S|N,"root":i,"ro":[j..],"rerun":b,"prop":b,"worker":"debug"|"cf"}
-  {"op":"plant","ident":A|B|C|E|W,"root":i,"kind":"empty"|"jobonly"|"zero"}
+  {"op":"plant","ident":A|B|C|E|W|N,"root":i,"kind":"empty"|"jobonly"|"zero"|"trunc"[,"cut":permille]}
 N is a workflow with another workflow (W) as one of its nodes and a task (C) next to it.
 
 Observation points: the O_APPEND execution log (one line per body execution), the returned
@@ -34,14 +34,19 @@ RULE = (
     "outer workflow holding that chain workflow as a node next to a task}, "
     "cache root, ordered subset of the other locations as read-only caches, rerun, propagate_rerun, "
     "worker debug|cf) or plant(identity, location, leftover kind: empty dir | dir with only "
-    "_job.pklz | zero-byte _result.pklz). After every submission: per-identity execution counts == "
+    "_job.pklz | zero-byte _result.pklz | non-empty truncated _result.pklz = a proper prefix, cut at a "
+    "drawn permille, of a pickle stream). After every submission: per-identity execution counts == "
     "model, outputs correct, every other location byte-identical, executed identities have a "
     "complete result under the cache root. Non-trivial = the history contains a read-only-cache "
     "hit, a rerun of something already cached, or a planted leftover that a later submission "
     "meets; distinct = the op list. Batches: free histories on the debug worker; free histories "
     "with process-pool submissions; follow-up scenarios (one thing submitted, then 1..3 further "
     "submissions of it with drawn rerun/propagate/worker/cache lists, workflows preferred) so that "
-    "reruns of cached workflows through the process-pool worker occur in every few cases."
+    "reruns of cached workflows through the process-pool worker occur in every few cases; leftover "
+    "scenarios (one thing submitted to one location, leftovers of identities inside it planted in "
+    "the other locations, then submissions rooted there listing the first location read-only) so "
+    "that every leftover kind is met BEFORE a complete result in a later listed cache (label "
+    "leftover_before_complete_result[:kind]) in every few cases."
 )
 ASSUMPTIONS = [
     "cache identities (task._checksum) are taken from pydra (trusted here; C06-C09 check them)",
@@ -49,7 +54,12 @@ ASSUMPTIONS = [
     "whether a result served from a read-only cache is also copied under the cache root is left "
     "open by the statement; the model follows what is observed there",
     "the content of a planted _job.pklz is a pickled None (pydra does not read it on lookup)",
-    "leftover lock files and truncated non-empty result files are C10/C12 territory",
+    "a truncated result file is modelled as a proper prefix of a pickle stream of a plain dict "
+    "(what a writer that died half-way leaves); arbitrary garbage in _result.pklz is not generated; "
+    "pydra re-reads such a file 10 x 0.1 s before giving up; in-process (debug worker) these sleeps "
+    "are cut to 1 ms through a stand-in for the `time` module in pydra.engine.result (the planted "
+    "file never changes, the outcome cannot depend on the waiting time)",
+    "leftover lock files are C10/C12 territory",
 ]
 SHARDS = {"quick": 16, "thorough": 16}
 
@@ -99,17 +109,38 @@ def _snap(root: Path):
 
 
 def _complete(root: Path, ck: str):
+    import pickle
+
+    import cloudpickle as cp
+
     f = root / ck / "_result.pklz"
-    return f.exists() and f.stat().st_size > 0
+    if not (f.exists() and f.stat().st_size > 0):
+        return False
+    try:
+        with open(f, "rb") as fp:
+            cp.load(fp)
+    except (pickle.UnpicklingError, EOFError):  # truncated (planted) result file
+        return False
+    return True
 
 
-def _plant(root: Path, ck: str, kind: str):
+def _truncated_pickle(cut: int) -> bytes:
+    import cloudpickle as cp
+
+    data = cp.dumps({"leftover": list(range(300)), "text": "x" * 300})
+    n = min(max(1, len(data) * cut // 1000), len(data) - 1)
+    return data[:n]
+
+
+def _plant(root: Path, ck: str, kind: str, cut: int = 500):
     d = root / ck
     d.mkdir(parents=True)
-    if kind in ("jobonly", "zero"):
+    if kind in ("jobonly", "zero", "trunc"):
         (d / "_job.pklz").write_bytes(b"\x80\x04N.")
     if kind == "zero":
         (d / "_result.pklz").write_bytes(b"")
+    if kind == "trunc":
+        (d / "_result.pklz").write_bytes(_truncated_pickle(cut))
 
 
 def _out_value(name, outputs):
@@ -122,7 +153,34 @@ def _diff(before, after):
     return ch[:6]
 
 
+class _ShortSleep:
+    """stands in for the `time` module inside pydra.engine.result: the retry loop of load_result
+    sleeps 10 x 0.1 s per look-up of a truncated result file; the planted file never changes, so
+    the waiting time is irrelevant to the outcome and is cut to 1 ms per retry"""
+
+    def __init__(self, real):
+        self._real = real
+
+    def sleep(self, seconds):
+        self._real.sleep(min(seconds, 0.001))
+
+    def __getattr__(self, name):
+        return getattr(self._real, name)
+
+
 def check_case(case):
+    import pydra.engine.result as result_mod
+
+    real_time = result_mod.time
+    if any(op.get("kind") == "trunc" for op in case["ops"]):
+        result_mod.time = _ShortSleep(real_time)
+    try:
+        return _check_case(case)
+    finally:
+        result_mod.time = real_time
+
+
+def _check_case(case):
     from pydra.engine.submitter import Submitter
 
     base = scratchdir.new("c11")
@@ -143,7 +201,7 @@ def check_case(case):
                 break
             if op["op"] == "plant":
                 if model.plant(op["ident"], op["root"], op["kind"]):
-                    _plant(roots[op["root"]], cks[op["ident"]], op["kind"])
+                    _plant(roots[op["root"]], cks[op["ident"]], op["kind"], op.get("cut", 500))
                 continue
             name, R, ro = op["task"], op["root"], list(op["ro"])
             rerun, prop, worker = op["rerun"], op["prop"], op["worker"]
@@ -264,6 +322,12 @@ def describe(case):
             good.submit(name, R, ro, op["rerun"], op["prop"])
             if shadow.counts != good.counts:
                 labels.add("leftover_before_complete_result")
+                # which kind of leftover stands in front of a complete result
+                for i in idents:
+                    src = m.found(i, caches)
+                    for r in caches[:caches.index(src)] if src is not None else []:
+                        if (i, r) in m.incomplete:
+                            labels.add("leftover_before_complete_result:" + m.incomplete[(i, r)])
         ev = m.submit(name, R, ro, op["rerun"], op["prop"])
         for e in ev:
             if e[0] == "hit":
@@ -294,3 +358,5 @@ def run(sh):
     # follow-up scenarios: the same thing submitted again with drawn rerun / propagate / worker
     sh.given(gen.c11_followups(cf_weight=8), body, 2 if sh.quick else 40, tag="followcf")
     sh.given(gen.c11_followups(cf_weight=0), body, sh.budget(160, 2400), tag="follow")
+    # leftover scenarios: an incomplete directory (every kind) in front of a complete result
+    sh.given(gen.c11_leftover_scenarios(), body, sh.budget(96, 1600), tag="leftover")
